@@ -101,7 +101,9 @@ func c04Context(c *Ctx) {
 
 func c04Wiring(c *Ctx, barms, parms map[int64]OpArm) {
 	const rule = "C04.operator-wiring"
-	check := func(sym, method string, h *ssa.Function, pos string, binary bool) {
+	depth := 0
+	var check func(sym, method string, h *ssa.Function, pos string, binary bool)
+	check = func(sym, method string, h *ssa.Function, pos string, binary bool) {
 		if h == nil {
 			c.R.Check(rule, sym, pos, false, "no handler for `"+sym+"`")
 			return
@@ -124,6 +126,15 @@ func c04Wiring(c *Ctx, barms, parms map[int64]OpArm) {
 			}
 			if _, isW := c.DecimalWriters()[cal.String()]; isW {
 				dcalls = append(dcalls, cc)
+			}
+		}
+		if len(dcalls) == 0 && depth < 2 {
+			// the numeric branch hands both operands, in order, to a helper and returns its results: judge the helper
+			if g := c.delegateOf(r, ops); g != nil {
+				depth++
+				check(sym, method, g, pos, binary)
+				depth--
+				return
 			}
 		}
 		if len(dcalls) != 1 {
@@ -546,4 +557,42 @@ func c04Literal(c *Ctx, rule string) {
 	}
 	c.R.Check(rule, "numeric-literal", c.P.InstrPos(set), textOK && fresh && okTested, fmt.Sprintf("a numeric literal must be SetString(<the literal's own text>) into a fresh Context128 number with the failure turned into an error: text=%v fresh=%v failure-checked=%v", textOK, fresh, okTested))
 	_ = constant.MakeBool
+}
+
+// delegateOf: under fold r every successful return of the handler is (g(...)#0, g(...)#1) for one module function g
+// that receives the handler's operand values in order. Returns g.
+func (c *Ctx) delegateOf(r *FoldResult, ops []*ssa.Parameter) *ssa.Function {
+	var g *ssa.Function
+	for _, ret := range r.Returns {
+		if len(ret.Results) != 2 {
+			return nil
+		}
+		rs0, rs1 := plainOrigins.Roots(ret.Results[0]), plainOrigins.Roots(ret.Results[1])
+		if len(rs0) != 1 || len(rs1) != 1 || rs0[0].Kind != "call" || rs0[0].V != rs1[0].V || rs0[0].Fn == nil || !c.inModule(rs0[0].Fn) {
+			return nil
+		}
+		call, ok := rs0[0].V.(*ssa.Call)
+		if !ok {
+			return nil
+		}
+		var vals []ssa.Value
+		for _, a := range call.Call.Args {
+			if a.Type().String() == "interface{}" || a.Type().String() == "any" {
+				vals = append(vals, a)
+			}
+		}
+		if len(vals) != len(ops) {
+			return nil
+		}
+		for i := range vals {
+			if vals[i] != ssa.Value(ops[i]) {
+				return nil
+			}
+		}
+		if g != nil && g != rs0[0].Fn {
+			return nil
+		}
+		g = rs0[0].Fn
+	}
+	return g
 }
